@@ -720,6 +720,8 @@ class Client:
           and the values are values from the cache. The dict may contain all,
           some or none of the given keys.
         """
+        # an empty one-shot iterable is truthy: look at what it yields
+        keys = list(keys)
         if not keys:
             return {}
 
@@ -781,6 +783,8 @@ class Client:
           the values are tuples of (value, cas) from the cache. The dict may
           contain all, some or none of the given keys.
         """
+        # an empty one-shot iterable is truthy: look at what it yields
+        keys = list(keys)
         if not keys:
             return {}
 
